@@ -75,6 +75,28 @@ pub struct Vvm {
     pub strict_sigs: RefCell<bool>,
     /// set when a panic was caught inside an actor invocation
     pub panics: RefCell<Vec<String>>,
+    /// when `ledger_on`, every executed top-level message is appended here (not drained by
+    /// take_invocations): its trace, the balances after it of every actor the trace mentions, and the
+    /// total of all balances after it
+    pub ledger_on: RefCell<bool>,
+    pub ledger_log: RefCell<Vec<LedgerEntry>>,
+}
+
+pub struct LedgerEntry {
+    pub trace: InvocationTrace,
+    pub post: Vec<(u64, TokenAmount)>,
+    pub total: TokenAmount,
+    pub epoch: ChainEpoch,
+}
+
+fn touched_ids(t: &InvocationTrace, out: &mut std::collections::BTreeSet<u64>) {
+    out.insert(t.from);
+    if let Ok(id) = t.to.id() {
+        out.insert(id);
+    }
+    for s in &t.subinvocations {
+        touched_ids(s, out);
+    }
 }
 
 impl Vvm {
@@ -105,6 +127,8 @@ impl Vvm {
             consensus_fault: RefCell::new(None),
             strict_sigs: RefCell::new(false),
             panics: RefCell::new(vec![]),
+            ledger_on: RefCell::new(false),
+            ledger_log: RefCell::new(vec![]),
         }
     }
 
@@ -303,6 +327,55 @@ impl Vvm {
     fn actor_map(&self) -> Map2<&MemoryBlockstore, Address, ActorState> {
         Map2::load(self.store.as_ref(), &self.checkpoint(), DEFAULT_HAMT_CONFIG, "actors").unwrap()
     }
+
+    /// (C11, additive) Invoke `to.method(params)` with `from` as the immediate caller and `origin`
+    /// as the message originator -- the same path as `execute_message` (same `InvocationCtx::invoke`,
+    /// same roll-back on error) but without touching the sender's nonce, without turning a
+    /// placeholder sender into an EthAccount, and with an origin that may differ from the caller.
+    /// Returns (exit code, message, "a validate_immediate_caller_* primitive was reached").
+    /// Nothing is recorded in the invocation log / ledger.
+    pub fn inject_call(
+        &self,
+        from: fvm_shared::ActorID,
+        origin: &Address,
+        to: &Address,
+        value: &TokenAmount,
+        method: MethodNum,
+        params: Option<IpldBlock>,
+    ) -> (ExitCode, String, bool) {
+        let prior_root = self.checkpoint();
+        self.send_counter.replace(0);
+        let top = TopCtx {
+            originator_stable_addr: *origin,
+            originator_call_seq: self.actor(origin).map(|a| a.sequence).unwrap_or(0),
+            new_actor_addr_count: Rc::new(RefCell::new(0)),
+            circ_supply: self.circulating_supply.borrow().clone(),
+        };
+        let msg = InternalMessage { from, to: *to, value: value.clone(), method, params };
+        let mut ctx = InvocationCtx {
+            v: self,
+            top,
+            msg,
+            allow_side_effects: RefCell::new(true),
+            caller_validated: RefCell::new(false),
+            read_only: false,
+            policy: &self.policy,
+            subinvocations: RefCell::new(vec![]),
+            events: RefCell::new(vec![]),
+        };
+        let res = ctx.invoke();
+        let validated = *ctx.caller_validated.borrow();
+        match res {
+            Err(ae) => {
+                self.rollback(prior_root);
+                (ae.exit_code(), ae.msg().to_string(), validated)
+            }
+            Ok(_) => {
+                self.checkpoint();
+                (ExitCode::OK, "OK".to_string(), validated)
+            }
+        }
+    }
 }
 
 impl VM for Vvm {
@@ -340,7 +413,7 @@ impl VM for Vvm {
         let top = TopCtx {
             originator_stable_addr: *from,
             originator_call_seq: call_seq,
-            new_actor_addr_count: RefCell::new(0),
+            new_actor_addr_count: Rc::new(RefCell::new(0)),
             circ_supply: self.circulating_supply.borrow().clone(),
         };
         let msg = InternalMessage {
@@ -364,11 +437,12 @@ impl VM for Vvm {
         let res = new_ctx.invoke();
 
         let invoc = new_ctx.gather_trace(res.clone());
+        let ledger_copy = if *self.ledger_on.borrow() { Some(invoc.clone()) } else { None };
         RefMut::map(self.invocations.borrow_mut(), |invocs| {
             invocs.push(invoc);
             invocs
         });
-        match res {
+        let out = match res {
             Err(mut ae) => {
                 self.rollback(prior_root);
                 Ok(MessageResult {
@@ -381,7 +455,19 @@ impl VM for Vvm {
                 self.checkpoint();
                 Ok(MessageResult { code: ExitCode::OK, message: "OK".to_string(), ret })
             }
+        };
+        if let Some(tr) = ledger_copy {
+            let mut ids = std::collections::BTreeSet::new();
+            touched_ids(&tr, &mut ids);
+            let post: Vec<(u64, TokenAmount)> =
+                ids.iter().map(|i| (*i, self.balance(&Address::new_id(*i)))).collect();
+            let mut total = TokenAmount::zero();
+            for (_, a) in self.actor_states() {
+                total += a.balance;
+            }
+            self.ledger_log.borrow_mut().push(LedgerEntry { trace: tr, post, total, epoch: self.epoch() });
         }
+        out
     }
 
     fn execute_message_implicit(
